@@ -22,7 +22,7 @@ static void check_variant(const char *unused, u64 *o, out_t e, int required) {
     CHECK((s64)o[2] == (s64)e.id, "global failure names the first must-rule that failed in evaluation order");
     CHECK(o[3] >= e.lo && o[3] <= e.far, "exception position lies between the start of the blamed attempt and the furthest point reached");
 #ifndef SP_LAZY
-    if (e.id < 1000) { u64 l, c; sp_recount(o[3], &l, &c); CHECK(o[6] == l && o[7] == c, "exception byte/line/column are mutually consistent"); }
+    if (e.id < 1000 || e.id >= 4000) { u64 l, c; sp_recount(o[3], &l, &c); CHECK(o[6] == l && o[7] == c, "exception byte/line/column are mutually consistent"); }
 #endif
   }
   if (e.r == 3) {
